@@ -15,8 +15,8 @@ pub(crate) mod kani_verif {
     // ---- contract stubs (bodies checked elsewhere: c08_child_seed_*, c07_lms_sign_*)
     static RAND_CALLS: AtomicUsize = AtomicUsize::new(0);
     static RAND_ARG: [AtomicU8; 16 + 16 + 4 + 32] = [const { AtomicU8::new(0) }; 68];
-    pub fn stub_randomizer<HH: HashChain>(
-        child_seed: &SeedAndLmsTreeIdentifier<HH>,
+    pub fn stub_randomizer<H: HashChain>(
+        child_seed: &SeedAndLmsTreeIdentifier<H>,
         parent_lms_leaf_identifier: &u32,
     ) -> ArrayVec<[u8; MAX_HASH_SIZE]> {
         RAND_CALLS.fetch_add(1, Ordering::Relaxed);
@@ -39,17 +39,17 @@ pub(crate) mod kani_verif {
             RAND_ARG[36 + i].store(c[i], Ordering::Relaxed);
             i += 1;
         }
-        ArrayVec::from_array_len(c, HH::OUTPUT_SIZE as usize)
+        ArrayVec::from_array_len(c, H::OUTPUT_SIZE as usize)
     }
     static LMS_SIGN_CALLS: AtomicUsize = AtomicUsize::new(0);
     static LMS_SIGN_ARG: [AtomicU8; 16 + 4 + 32 + 4] = [const { AtomicU8::new(0) }; 56];
     static LMS_SIGN_FAIL: AtomicUsize = AtomicUsize::new(0);
-    pub fn stub_lms_sign<HH: HashChain>(
-        lms_private_key: &mut LmsPrivateKey<HH>,
+    pub fn stub_lms_sign<H: HashChain>(
+        lms_private_key: &mut LmsPrivateKey<H>,
         message: &[u8],
         signature_randomizer: &ArrayVec<[u8; MAX_HASH_SIZE]>,
         _aux_data: &mut Option<MutableExpandedAuxData>,
-    ) -> Result<LmsSignature<HH>, ()> {
+    ) -> Result<LmsSignature<H>, ()> {
         LMS_SIGN_CALLS.fetch_add(1, Ordering::Relaxed);
         let mut i = 0;
         while i < 16 {
@@ -76,7 +76,7 @@ pub(crate) mod kani_verif {
             LMS_SIGN_FAIL.store(1, Ordering::Relaxed);
             return Err(());
         }
-        let mut s = LmsSignature::<HH>::default();
+        let mut s = LmsSignature::<H>::default();
         s.lms_leaf_identifier = q;
         s.lms_parameter = lms_private_key.lms_parameter;
         s.lmots_signature.signature_randomizer = *signature_randomizer;
